@@ -168,6 +168,10 @@ func (bq *Queue[Q]) Put(element Q) error {
 				h = bq.chain.Height()
 				if h+uint32(bq.cacheSize) >= element.GetIndex() {
 					bq.queueLock.Lock()
+					if bq.discarded.Load() {
+						// Discarded while we were unlocked, checkBlocks is closed.
+						return nil
+					}
 					break
 				}
 			}
